@@ -115,8 +115,12 @@ def ref(o, p, ms):
         # product; otherwise matrix multiply
         one_a = len(a) == 1 and len(a[0]) == 1
         one_b = len(b) == 1 and len(b[0]) == 1
-        if one_a or one_b:
-            return [[x * y for x, y in zip(r1, r2)] for r1, r2 in zip(a, b)]
+        if one_a and one_b:
+            return a[0][0] * b[0][0]                       # two 1x1 operands: a scalar
+        if one_a:
+            return [[a[0][0] * y for y in row] for row in b]
+        if one_b:
+            return [[x * b[0][0] for x in row] for row in a]
         va = len(a) == 1 or len(a[0]) == 1
         vb = len(b) == 1 or len(b[0]) == 1
         if va and vb:
@@ -249,12 +253,13 @@ def _build(p):
         wv = res.to_wirevector()
         o = pyrtl.Output(len(wv), 'o')
         o <<= wv
+        return {'o': len(o), 'rows': res.rows, 'cols': res.columns}
     else:
         res = pyrtl.as_wires(res)
         _SHAPE[_key(p)] = ('wire', len(res))
         o = pyrtl.Output(len(res), 'o')
         o <<= res
-    return {'o': len(o)}
+    return {'o': len(o), 'rows': 1, 'cols': 1}      # a scalar counts as 1 x 1
 
 
 def _spec(o, p, ins):
@@ -284,4 +289,14 @@ def _W(p):
     return max(tot, out) + 2 * mb * max(p.get('k', 1), 1) + 10
 
 
-case('matrix.op', _spec, W=_W)(_build)
+def _shape_lens(p):
+    """expected result shape, from the reference operation on zero matrices (0 x 0 = scalar)"""
+    from spec.ops import IntOps
+    ms = [[[0] * c for _ in range(r)] for (r, c, b) in p['shapes']]
+    r = ref(IntOps, p, ms)
+    if not isinstance(r, list):
+        return {'rows': 1, 'cols': 1}
+    return {'rows': len(r), 'cols': len(r[0])}
+
+
+case('matrix.op', _spec, W=_W, lens=_shape_lens)(_build)
